@@ -69,15 +69,15 @@ CLAIMED["C17"] = dict(
 
 # Families and rules added after the first version of each harness (DESIGN 10, 13).
 ADDED = {
-    "C13": " Also: once the cache holds the slices of one window, that window and a second window of the same expression (same end and step) are asked at the same time by two callers and each must equal what it returns alone; slice faults include 499/canceled and a 200 body that ends cleanly after `\"result\":[`.",
-    "C14": " The scheduler can also hold every parked task back while simulated time passes (pauses), so deadlines, GC ticks and expiries can overtake a response.",
+    "C13": " Also: the same query is asked again up to two steps later on a warm cache and must equal a cold-cache answer at that moment; once the cache holds the slices of one window, that window and a second window of the same expression (same end and step) are asked at the same time by two callers and each must equal what it returns alone; slice faults include 499/canceled and a 200 body that ends cleanly after `\"result\":[`.",
+    "C14": " Taking one of promapi's leaf mutexes is a scheduling point (instrumented copies of cache.go, failover.go, prometheus.go handed to the go tool with -overlay at build time), and a schedule may starve one kind of scheduling point. The scheduler can also hold every parked task back while simulated time passes (pauses), so deadlines, GC ticks and expiries can overtake a response.",
     "C15": " An upstream is judged by its last word: asking the same upstream again after unavailability is allowed, after an answer it is not. A third family runs the whole `pint lint` command in process during a total outage or with only the last upstream of every server healthy and compares report, console output and exit status with a run against healthy servers.",
     "C16": " The database keeps growing while pint is asking (samples are appended up to the instant of every request); some scenarios give all selectors one long common prefix; rules pairing two bare metrics without a fallback are generated on purpose.",
     "C11": " Slow-but-healthy servers (150-450 ms per answer, timeout 2 s) are part of the workload. A run that never comes back ends the worker at once (the process is not trustworthy afterwards) and is reported without minimisation.",
     "C07": "",
-    "C03": " Scripted multi-commit motifs (a path freed by a deletion or rename taken over by another file that is edited before and after, rename-then-edit, rename-and-back) are mixed into the random histories.",
-    "C20": " Histories of up to 6 commits with the same scripted motifs, an edit that removes nothing, and a configuration in which only `relaxed/` is parsed in relaxed mode (bare lists there, strict documents elsewhere).",
-    "C17": " Faults include a create that is applied but answered after the reporter's timeout; duplicates are judged in those rounds too. Forge requests are scheduling points of the seeded scheduler.",
+    "C03": " Histories can merge the base branch into the branch under review (files both sides changed are merged by git; trees are then read back from the repository); branch names are drawn. Scripted multi-commit motifs (a path freed by a deletion or rename taken over by another file that is edited before and after, rename-then-edit, rename-and-back) are mixed into the random histories.",
+    "C20": " Commits on the base branch after the fork and merges of it into the branch under review; branch names are drawn. Histories of up to 6 commits with the same scripted motifs, an edit that removes nothing, and a configuration in which only `relaxed/` is parsed in relaxed mode (bare lists there, strict documents elsewhere).",
+    "C17": " The simulated GitHub paginates its listings like api.github.com (30 per page, Link header), pull requests can be big (25-45 other changed files) and gather more than 30 comments. Faults include a create that is applied but answered after the reporter's timeout; duplicates are judged in those rounds too. Forge requests are scheduling points of the seeded scheduler.",
 }
 for _k, _v in ADDED.items():
     CLAIMED[_k]["text"] += _v
